@@ -341,6 +341,11 @@ func runChanPath(c caseDef) (po pathObs) {
 			delete(img, badKey)
 			continue
 		}
+		if perr != nil { // Start reported success, yet the store cannot be used (recorded: the judge compares ret with probe); open it again
+			img = rec.Snapshot()
+			n.Stop()
+			continue
+		}
 		ok = true
 	}
 	if !ok {
